@@ -1,4 +1,72 @@
-(* placeholder *)
-From GR Require Import Base Resp.
-Theorem C10_placeholder : True. Proof. exact I. Qed.
-Print Assumptions C10_placeholder.
+(* C10 — ill-formed arguments are rejected without side effects.  Property theorems only.
+   "Rejected" = the executor returns the framework-error result `x_fw` with the event log UNCHANGED: no handler
+   call, no other event; execute_command then leaves connection and server state as they were (C05/ConnFacts), the
+   reply is an error frame (C04) and the loop goes on with the next request (C03). *)
+From Coq Require Import String.
+From GR Require Import Base Resp Handler Exec Conn Grammar GrammarFacts.
+
+Section C10.
+  Variable hstate : Type.
+  Variable handle : hstate -> Z -> hcall -> hstate * hresult.
+  Variable regexp_src : bytes -> bytes.
+
+  (* (1) no partial execution, for ANY argument list whatsoever: a command that maps onto one handler operation is
+     either refused without a single event, or is exactly one handler call *)
+  Theorem C10_no_partial_execution : forall r c a s,
+    exec_of hstate handle regexp_src r c a s = (x_fw, s) \/
+    exists h, exec_of hstate handle regexp_src r c a s = pass hstate handle c h s.
+  Proof. exact (direct_dichotomy hstate handle regexp_src). Qed.
+
+  (* (2) a required positional argument is missing: every strict prefix of the required part of every valid request
+     (for ZADD: key, option words, first score, first member) is refused *)
+  Theorem C10_missing_argument : forall r c s n, valid r = true -> (n < required r)%nat ->
+    exec_of hstate handle regexp_src r c (firstn n (print r)) s = (x_fw, s).
+  Proof. exact (truncated_rejected hstate handle regexp_src). Qed.
+
+  (* (3) key/value lists with a dangling half, or empty: MSET, MSETNX, HMSET, CONFIG SET *)
+  Theorem C10_mset_dangling : forall c l s, Nat.odd (length l) = true ->
+    x_MSET hstate handle c (map bulk l) s = (x_fw, s) /\ x_MSETNX hstate handle c (map bulk l) s = (x_fw, s).
+  Proof. exact (mset_dangling hstate handle). Qed.
+  Theorem C10_mset_empty : forall c s, x_MSET hstate handle c [] s = (x_fw, s) /\ x_MSETNX hstate handle c [] s = (x_fw, s).
+  Proof. exact (mset_empty hstate handle). Qed.
+  Theorem C10_hmset_dangling : forall c k l s, Nat.odd (length l) = true -> x_HMSET hstate handle c (map bulk (k :: l)) s = (x_fw, s).
+  Proof. exact (hmset_dangling hstate handle). Qed.
+  Theorem C10_config_set_dangling : forall ss w l, word_ok w = true -> w_kw w = "SET"%string -> Nat.odd (length l) = true ->
+    x_CONFIG ss (map bulk (w_txt w :: l)) = (x_fw, ss).
+  Proof. exact config_set_dangling. Qed.
+
+  (* (4) a score without its member, after any number of complete score/member pairs *)
+  Theorem C10_zadd_dangling : forall more score m tok,
+    forallb (fun p : fltok * bytes => fltok_ok (fst p)) more = true ->
+    zadd_members (bulk m :: flat_map (fun p : fltok * bytes => [bulk (ft_txt (fst p)); bulk (snd p)]) more ++ [bulk tok]) score = None.
+  Proof. exact zadd_members_dangling. Qed.
+
+  (* (5) SET: a non-positive expiry, whatever precedes and follows *)
+  Theorem C10_set_nonpositive_expiry : forall w n rest o,
+    word_ok w = true -> (w_kw w = "EX" \/ w_kw w = "PX" \/ w_kw w = "EXAT" \/ w_kw w = "PXAT")%string ->
+    inttok_ok n = true -> (it_val n < 1)%Z ->
+    next_set_opts (bulk (w_txt w) :: bulk (it_txt n) :: rest) o = None.
+  Proof. exact set_nonpositive_expiry. Qed.
+End C10.
+Print Assumptions C10_no_partial_execution.
+Print Assumptions C10_missing_argument.
+Print Assumptions C10_mset_dangling.
+Print Assumptions C10_mset_empty.
+Print Assumptions C10_hmset_dangling.
+Print Assumptions C10_config_set_dangling.
+Print Assumptions C10_zadd_dangling.
+Print Assumptions C10_set_nonpositive_expiry.
+
+(* concrete rejections on the model (the same inputs the correspondence run sends to the implementation) *)
+Example C10_ex :
+  let h := fun (s : unit) (_ : Z) (_ : hcall) => (s, hr_ok ok_msg) in
+  let c := {| cs_auth := true; cs_db := 0; cs_user := []; cs_pass := None; cs_tls := None |} in
+  let s0 := {| e_hs := tt; e_evs := [] |} in
+  let rej x := snd (fst x, e_evs unit (snd x)) = [] /\ x_err (fst x) = Some XFw in
+  rej (x_SET unit h c (map bulk [B"k"; B"v"; B"NX"; B"XX"]) s0) /\
+  rej (x_SET unit h c (map bulk [B"k"; B"v"; B"EX"; B"10"; B"PX"; B"5"]) s0) /\
+  rej (x_SET unit h c (map bulk [B"k"; B"v"; B"EX"; B"9223372037"]) s0) /\
+  rej (x_SET unit h c [bulk (B"k"); RBulk None] s0) /\
+  rej (x_LRANGE unit h c (map bulk [B"k"; B"1.5"; B"2"]) s0) /\
+  rej (x_ZADD unit h c (map bulk [B"k"; B"1"; B"a"; B"2"]) s0).
+Proof. vm_compute. repeat split; reflexivity. Qed.
